@@ -248,6 +248,7 @@ PROPS["C04"] = {
 }
 
 PROPS["C08"] = {
+    "tierb": {"legs": ["ssh", "quic/udp", "p2pke/udp"], "runs": {"quick": 48, "thorough": 1200}, "budget": {"quick": 240, "thorough": 700}},
     "pkg": "stk", "env": {"SIM_PROP": "C08"},
     "legs": ["frag/sim", "mbapp/sim", "mux-string/sim", "mux-varint/sim", "mux-u16/sim", "mux-u32/sim", "mux-u64/sim", "askmux-string/mbapp/sim", "askmux-varint/mbapp/sim",
              "multi/mem+sim", "multi/mbapp/mem+mbapp/sim", "p2pke/sim", "frag/p2pke/sim", "mbapp/p2pke/sim", "wl/mbapp/sim", "map/frag/sim", "frag/frag/sim", "mbapp/frag/sim", "frag/mem", "mbapp/mem", "mux-string/mem",
